@@ -135,6 +135,10 @@ def case_stream(rng: random.Random, tier: str):
                 n = rng.choice([2, 3, 3, 4, 4, 4])
             mask = rng.randrange(1 << (n * n))
             yield G.class_graph_case(n, mask, rng, rng.randrange(n), rng.choice(G.ROOT_KINDS), variant)
+    for i in range(2500 if tier == "thorough" else 400):
+        yield G.chain_case(rng, rng.choice([1, 2, 2, 3, 3]))
+    for i in range(600 if tier == "thorough" else 100):
+        yield G.unresolvable_case(rng)
     for i in range(3000 if tier == "thorough" else 400):
         yield G.random_case(rng, depth=rng.choice([1, 2, 3, 3]))
 
@@ -448,6 +452,18 @@ def input_forms(case, live, root, nodes, base):
         run_form("NewType", lambda: exec(f"FormNT = typing.NewType('FormNT', {text})", mod.__dict__) or mod.__dict__["FormNT"])
         run_form("value-alias", lambda: exec(f"FormAL = compat.TypeAliasType('FormAL', {text})", mod.__dict__) or mod.__dict__["FormAL"])
         run_form("ForwardRef", lambda: refs.forwardref(text, module=G.MOD_A))
+        # wrapper chains in every alternation: W(T) gives T's sequence up to the root label
+
+        def chain(label, code, last):
+            run_form(label, lambda: exec(code, mod.__dict__) or mod.__dict__[last])
+
+        chain("alias-of-alias", f"FcA1 = compat.TypeAliasType('FcA1', {text})\nFcA2 = compat.TypeAliasType('FcA2', FcA1)", "FcA2")
+        chain("alias-of-NewType", f"FcN1 = typing.NewType('FcN1', {text})\nFcA3 = compat.TypeAliasType('FcA3', FcN1)", "FcA3")
+        chain("NewType-of-alias", f"FcA4 = compat.TypeAliasType('FcA4', {text})\nFcN2 = typing.NewType('FcN2', FcA4)", "FcN2")
+        chain("alias-of-NewType-of-alias",
+              f"FcA5 = compat.TypeAliasType('FcA5', {text})\nFcN3 = typing.NewType('FcN3', FcA5)\nFcA6 = compat.TypeAliasType('FcA6', FcN3)", "FcA6")
+        chain("Final-of-alias-of-NewType",
+              f"FcN4 = typing.NewType('FcN4', {text})\nFcA7 = compat.TypeAliasType('FcA7', FcN4)\nFcF = typing.Final[FcA7]", "FcF")
         import re
         # a bare string is resolved by refs' own convention: a LEADING dotted name is the module and the rest
         # is looked up inside it; `typing.Sequence[uuid.UUID]` is therefore not a string the code claims to
@@ -478,6 +494,8 @@ def search(run: lib.Run, broken):
     pool += allcases[off::step][:budget]
     fails, nontriv = [], 0
     for case in pool:
+        if case["tag"].startswith("unresolvable"):
+            continue      # unresolvable names are not annotations of U: tied by the correspondence only
         fs = oracle(case)
         nontriv += 1 if (case["classes"] or case["root"][0] in ("gen", "union")) else 0
         for x in fs:
